@@ -1,10 +1,6 @@
 //! One table of operations over the real public API. Both directions use it:
 //! replay compares exec(op,args) with the outcome TLC generated; record logs exec(op,args) for TLC to judge.
-use crate::js::{self, big, int};
-use crate::proj::*;
 use serde_json::{json, Value};
-use std::str::FromStr;
-use temporal_rs::options::*;
 use temporal_rs::tzdb::FsTzdbProvider;
 use temporal_rs::*;
 
@@ -16,5 +12,20 @@ pub fn utc() -> TimeZone { TimeZone::try_from_str("+00:00").expect("utc offset z
 
 pub fn exec(op: &str, a: &Value) -> Value {
     if let Some(v) = crate::ops_date::exec(op, a) { return v; }
+    if let Some(v) = crate::ops_round::exec(op, a) { return v; }
+    if let Some(v) = crate::ops_time::exec(op, a) { return v; }
+    if let Some(v) = crate::ops_dur::exec(op, a) { return v; }
+    if let Some(v) = crate::ops_dt::exec(op, a) { return v; }
+    if let Some(v) = crate::ops_zoned::exec(op, a) { return v; }
+    if let Some(v) = crate::ops_opts::exec(op, a) { return v; }
+    if let Some(v) = crate::ops_limits::exec(op, a) { return v; }
+    if let Some(v) = crate::ops_cal::exec(op, a) { return v; }
+    if let Some(v) = crate::ops_tzdb::exec(op, a) { return v; }
+    if let Some(v) = crate::ops_lock::exec(op, a) { return v; }
+    if let Some(v) = crate::ops_fmt::exec(op, a) { return v; }
+    if let Some(v) = crate::ops_parse::exec(op, a) { return v; }
+    if let Some(v) = crate::ops_wrap::exec(op, a) { return v; }
+    if let Some(v) = crate::ops_partial::exec(op, a) { return v; }
+    if let Some(v) = crate::ops_ym::exec(op, a) { return v; }
     json!({"kind": "unknown-op", "op": op})
 }
